@@ -64,7 +64,8 @@ def run(tier, seed):
     chk = Check("C06", LEVEL, tier, seed)
     chk.assumptions += ["packaged outputs are compared member-wise (names, order, compression method, contents) with uuids and timestamps masked",
                         "documents contain no transclusion markers and no 'mmd header/footer' metadata, so the CLI's pre-processing is the identity",
-                        "FODT: convert() returns the bare content stream by design; the data/file/CLI family is compared among itself"]
+                        "FODT: convert() returns the bare content stream by design; the data/file/CLI family is compared among itself",
+                        "a leading UTF-8 byte order mark is removed by the command line while reading its input; the library functions are given the text without it"]
     mc = tlc.run("Session", c05.MC % (5, "FALSE", "FALSE"), workers=NCPU, coverage=True)
     if mc.violated: raise FrameworkError("Session model violates " + mc.violated)
     chk.cov["states"] = mc.distinct; chk.cov["transitions"] = mc.generated
@@ -80,6 +81,9 @@ def run(tier, seed):
     # sources whose rendering is empty (every entry point still has to agree, trailing newline included)
     # output that contains '%' conversions-lookalikes (every writing path must treat the rendering as data)
     dpool["percent"] = b"100% of [docs](http://example.com/user%20docs/a%2Fb.html) cost 5%d or %s, %5.2f%% and %n.\n\n    code %x %c\n"
+    # a source that starts with a byte order mark: the command line strips it while reading (file and stdin alike); the library is given the text the
+    # command line hands to it, i.e. without the mark (LIBSRC below)
+    dpool["bom"] = b"\xef\xbb\xbfTitle: with BOM\n\n# Head #\n\ntext\n"
     dpool.update({"empty": b"", "blank": b"\n\n", "defonly": b"[a]: http://x.y/\n\n[^f]: unused note\n", "metaonly": b"Base Header Level: 2\n\n"})
     fmts = ["html", "latex", "beamer", "memoir", "opml", "fodt", "odt", "epub", "bundlezip", "itmz"]
     exts = EXTSETS[:3] if tier == "quick" else EXTSETS
@@ -90,8 +94,9 @@ def run(tier, seed):
             # every (format, extension set) with every document for plain formats; packaged formats on a rotating subset of documents
             cases = [c for i, c in enumerate(cases) if c[1] in PLAIN or (sum(map(ord, c[0] + c[1])) % 3 == 0) or c[0] in ("images", "notes")]
         segs = []
+        LIBSRC = lambda b: b[3:] if b.startswith(b"\xef\xbb\xbf") else b
         for (d, f, (xn, x, flags)) in cases:
-            s = ["seg\tc06", "wantout\t%d" % (1 if f in ("epub", "odt", "bundlezip", "itmz") else 0), line("src", d, sx(dpool[d]))]
+            s = ["seg\tc06", "wantout\t%d" % (1 if f in ("epub", "odt", "bundlezip", "itmz") else 0), line("src", d, sx(LIBSRC(dpool[d])))]
             # one engine object used for several conversions in a row (convert, convert_to_data, convert again)
             s += [line("e_new", 0, d, x, 0), line("e_conv", 0, docs.FMT[f]), line("e_data", 0, docs.FMT[f]), line("e_conv", 0, docs.FMT[f]), line("e_free", 0)]
             for fam in FAMS:
@@ -148,7 +153,7 @@ def run(tier, seed):
                 if ev.get("e") == "conv" and ev["fam"] == "s_conv": ldig.setdefault((d, f), {})[code] = ev["digest"]
         chk.cov["languages_distinct_renderings"] = {"%s|%s" % k: len(set(v.values())) for k, v in ldig.items()}
         # the command line tool
-        clicases = cases if tier == "thorough" else [c for c in cases if c[0] in ("notes", "images", "meta_de", "plain")]
+        clicases = cases if tier == "thorough" else [c for c in cases if c[0] in ("notes", "images", "meta_de", "plain", "bom", "percent")]
         def do_cli(c):
             d, f, (xn, x, flags) = c
             sub = os.path.join(wd, "cli_%s_%s_%s" % (d, f, xn)); os.makedirs(sub, exist_ok=True)
